@@ -74,7 +74,7 @@ OBS = {
     "add1": (lambda x, a: (x + np.int64(1)).tolist(), lambda r, a: [[v + 1 for v in q] for q in r]),
     "row": (lambda x, a: x[a].tolist(), lambda r, a: list(r[a])),
     "elem": (lambda x, a: x[a[0], a[1]].item(), lambda r, a: r[a[0]][a[1]]),
-    "rowscol": (lambda x, a: x[list(a[0]), a[1]].tolist(), lambda r, a: [r[i][a[1]] for i in a[0]]),
+    "rowscol": (lambda x, a: x[(a[0] if isinstance(a[0], np.ndarray) else list(a[0])), a[1]].tolist(), lambda r, a: [r[i][a[1]] for i in np.asarray(a[0]).tolist()]),
     "ell": (lambda x, a: x[...].tolist(), lambda r, a: [list(q) for q in r]),
     "empty": (lambda x, a: x[()].tolist(), lambda r, a: [list(q) for q in r]),
     "maskidx": (lambda x, a: x[x > np.int64(a)].tolist(), lambda r, a: [v for q in r for v in q if v > a]),
@@ -140,6 +140,8 @@ def obs_arg(rng, name, rows):
         cand = [k for k in range(n) if lens[k]]
         rs = [rng.choice(cand) for _ in range(rng.randint(1, 3))]
         ml = min(lens[k] for k in rs)
+        if rng.random() < 0.5:      # a signed index array with negative entries (the caller's array must come back unchanged)
+            rs = np.array([k if rng.random() < 0.5 else k - n for k in rs], dtype=rng.choice([np.int64, np.int32]))
         return [rs, rng.randint(-ml, ml - 1)]
     if name == "getcol":
         return rng.randint(0, max(lens) - 1)
@@ -488,6 +490,18 @@ def run_model(steps):
     return {v: [list(r) for r in rows] for v, rows in env.items()}, obs
 
 
+def _plain(a):
+    if isinstance(a, np.ndarray):
+        return a.tolist()
+    if isinstance(a, (list, tuple)):
+        return [_plain(x) for x in a]
+    if isinstance(a, slice):
+        return [a.start, a.stop, a.step]
+    if a is Ellipsis:
+        return "..."
+    return a
+
+
 def fresh_copy(x):
     RA = CTX.lib.RaggedArray
     c = copy.copy(x)
@@ -591,8 +605,12 @@ def run_lib(steps, mode="L", read_plan=None, purity=False, trace=None):
             if trace is not None:
                 x = env[st["u"]]
                 trace.append((st["what"], "lazy" if is_lazy(x) else "materialised", type(getattr(x, "_shape", None)).__name__))
+            arg_before = copy.deepcopy(st["arg"]) if purity else None
             res = OBS[st["what"]][0](env[st["u"]], st["arg"])
             obs.append((si, res))
+            if purity and not deep_same(_plain(arg_before), _plain(st["arg"])):
+                breaches.append((si, st["what"], ["the caller's index argument: %r -> %r" % (_plain(arg_before), _plain(st["arg"]))]))
+                st["arg"] = arg_before
             if purity:
                 after = live_snapshot()
                 CTX.tick("purity-tap")
@@ -607,7 +625,10 @@ def run_lib(steps, mode="L", read_plan=None, purity=False, trace=None):
             for (v, name, arg) in read_plan[si]:
                 if v in env:
                     before = live_snapshot() if purity else None
+                    arg_before = copy.deepcopy(arg) if purity else None
                     extra.append((si, v, name, OBS[name][0](env[v], arg)))
+                    if purity and not deep_same(_plain(arg_before), _plain(arg)):
+                        breaches.append((si, name, ["the caller's index argument: %r -> %r" % (_plain(arg_before), _plain(arg))]))
                     if purity:
                         after = live_snapshot()
                         CTX.tick("purity-tap")
